@@ -4,25 +4,25 @@ import "testing"
 
 func TestLineCol(t *testing.T) {
 	for _, tc := range []struct {
-		file           string
-		off            int
-		line, col      int
-		ok             bool
+		file      string
+		off       int
+		line, col int
+		ok        bool
 	}{
 		{"", 0, 1, 1, true},
 		{"abc", 0, 1, 1, true},
 		{"abc", 3, 1, 4, true},
-		{"a\nbc", 1, 1, 2, true},  // the newline itself is the last character of line 1
+		{"a\nbc", 1, 1, 2, true}, // the newline itself is the last character of line 1
 		{"a\nbc", 2, 2, 1, true},
 		{"a\r\nbc", 4, 2, 2, true},
 		{"a\r\nbc", 2, 1, 3, true}, // \r counts as a character of line 1
-		{"é日x", 5, 1, 3, true},    // é = 2 bytes, 日 = 3 bytes
+		{"é日x", 5, 1, 3, true},     // é = 2 bytes, 日 = 3 bytes
 		{"é日x", 2, 1, 2, true},
 		{"\tx", 1, 1, 2, true}, // a tab is one character
 		{"\xffx", 1, 1, 0, false},
 		{"ok\n\xffx", 1, 1, 2, true},
 		{"\xff\nxy", 3, 2, 2, true}, // invalid bytes on an earlier line do not matter
-		{"é", 1, 1, 0, false},      // offset inside a character
+		{"é", 1, 1, 0, false},       // offset inside a character
 		{"\n\n\n", 3, 4, 1, true},
 	} {
 		l, c, ok := LineCol([]byte(tc.file), tc.off)
@@ -46,27 +46,27 @@ func TestCheck(t *testing.T) {
 		want string
 	}{
 		{"abc", Pos{1, 1, 0, 0}, ""},
-		{"abc", Pos{1, 4, 3, 3}, ""},           // at EOF
-		{"", Pos{1, 1, 0, 0}, ""},              // empty file (go.mod errors)
-		{"", Pos{1, 1, 0, -1}, ""},             // empty range at start
+		{"abc", Pos{1, 4, 3, 3}, ""}, // at EOF
+		{"", Pos{1, 1, 0, 0}, ""},    // empty file (go.mod errors)
+		{"", Pos{1, 1, 0, -1}, ""},   // empty range at start
 		{"abc", Pos{1, 1, 0, -2}, "range-end;end-before-start;"},
 		{"abc", Pos{1, 5, 4, 4}, "range-start;range-end;"},
 		{"abc", Pos{1, 1, -1, 0}, "range-start;"},
 		{"abc", Pos{1, 3, 2, 0}, "end-before-start;"},
-		{"abc", Pos{1, 3, 2, 1}, ""},           // End = Start-1: empty token
+		{"abc", Pos{1, 3, 2, 1}, ""}, // End = Start-1: empty token
 		{"a\nb", Pos{1, 1, 2, 2}, "line;"},
 		{"a\nb", Pos{2, 2, 2, 2}, "column;"},
-		{"é{{", Pos{1, 3, 2, 3}, "column;"},    // column counted in bytes
+		{"é{{", Pos{1, 3, 2, 3}, "column;"}, // column counted in bytes
 		{"é{{", Pos{1, 2, 2, 3}, ""},
 		{"\xEF\xBB\xBFab", Pos{1, 2, 4, 4}, ""}, // BOM ignored
 		{"\xEF\xBB\xBFab", Pos{1, 3, 4, 4}, ""}, // BOM counted
 		{"\xEF\xBB\xBFab", Pos{1, 4, 4, 4}, "column;"},
 		{"\xEF\xBB\xBF\nab", Pos{2, 1, 5, 5}, "column;"}, // BOM tolerance only on line 1
-		{"a\n\rb", Pos{2, 1, 3, 3}, ""},         // \n\r taken as line break
-		{"a\n\rb", Pos{2, 2, 3, 3}, ""},         // \r taken as first character
+		{"a\n\rb", Pos{2, 1, 3, 3}, ""},                  // \n\r taken as line break
+		{"a\n\rb", Pos{2, 2, 3, 3}, ""},                  // \r taken as first character
 		{"a\n\rb", Pos{2, 3, 3, 3}, "column;"},
-		{"\xffab", Pos{1, 9, 2, 2}, ""},         // column not judged: invalid UTF-8 before it on the line
-		{"\xff\nab", Pos{1, 1, 3, 3}, "line;"},  // line always judged
+		{"\xffab", Pos{1, 9, 2, 2}, ""},        // column not judged: invalid UTF-8 before it on the line
+		{"\xff\nab", Pos{1, 1, 3, 3}, "line;"}, // line always judged
 	} {
 		if got := kinds(Check([]byte(tc.file), tc.p)); got != tc.want {
 			t.Errorf("Check(%q, %+v) = %q, want %q", tc.file, tc.p, got, tc.want)
@@ -76,11 +76,11 @@ func TestCheck(t *testing.T) {
 
 func TestMsgClass(t *testing.T) {
 	for in, want := range map[string]string{
-		`unexpected "foo", expecting }`:         "unexpected Q, expecting }",
-		"undefined: fooX":                       "undefined: X",
-		"invalid character U+00E9 'é'":          "invalid character Q Q",
-		"octal escape value 300 > 255":          "octal escape value N > N",
-		"comment not terminated":                "comment not terminated",
+		`unexpected "foo", expecting }`:          "unexpected Q, expecting }",
+		"undefined: fooX":                        "undefined: X",
+		"invalid character U+00E9 'é'":           "invalid character Q Q",
+		"octal escape value 300 > 255":           "octal escape value N > N",
+		"comment not terminated":                 "comment not terminated",
 		"cannot use \"a\" (type untyped string)": "cannot use Q (type untyped string)",
 	} {
 		if got := MsgClass(in); got != want {
